@@ -177,6 +177,23 @@ def run_job(job):
     events, skipped = [], []
     signal.signal(signal.SIGALRM, _alarm)
     cases = [(str(i), c) for i, c in enumerate(job['cases'])]
+    # state must not leak between algebras of one process: the same cases are first run (unrecorded) on ANOTHER
+    # configuration of the same dimension
+    if job.get('pre_u'):
+        try:
+            other = K.make_algebra(job['pre_u'], **algebra_options(opts))
+            for _, (op, keylists, params) in cases:
+                if op in ('law', 'law3', 'lawrp'):
+                    continue
+                signal.alarm(budget)
+                try:
+                    K.apply_op(op, [K.operand(other, spec, n + 1) for n, spec in enumerate(keylists)], params)
+                except Exception:   # noqa: BLE001
+                    pass
+                finally:
+                    signal.alarm(0)
+        except Exception:   # noqa: BLE001
+            pass
     # second pass: revisit a sample of the shard's cases in another order, on the same algebra
     # (the cached functions must still be the right ones after everything generated since)
     if job.get('revisit') and not job.get('fresh'):
